@@ -308,6 +308,23 @@ if m:
 else:
     errors.append('director.rs: operation mode not found')
 
+
+# ---- motion profiles the director binds (C19) and the constants of the maths helpers
+profs = re.findall(r'Linear::new\(\s*([\d_]+)\.0\s*,\s*([\d_]+)\.0\s*,\s*(true|false)\s*\)', t)
+if not profs:
+    errors.append('director.rs: no Linear::new(<gain>.0, <offset>.0, <bool>) profile found')
+else:
+    defs.append(('director_profiles', 'list (Z * Z * bool)',
+                 '[' + '; '.join('(%d, %d, %s)' % (num(a), num(b), c) for a, b, c in profs) + ']',
+                 'director.rs Linear::new(gain, offset, inverse) in binding order'))
+tm = src('math/mod.rs')
+if not re.search(r'use std::f32::consts::PI;', tm):
+    errors.append('math/mod.rs: PI is no longer std::f32::consts::PI')
+tl = src('math/lin.rs')
+if not (re.search(r'i16::MIN as f32 \+ self\.offset', tl) and re.search(r'i16::MAX as f32 - self\.offset', tl)):
+    errors.append('math/lin.rs: clamp bounds are no longer i16::MIN/MAX as f32 -/+ offset')
+want('power_neutral', src('core/motion.rs'), r'pub const POWER_NEUTRAL: MotionValueType = (-?[\d_]+);', 'core/motion.rs Motion::POWER_NEUTRAL')
+
 EXTRA = os.path.join(os.path.dirname(os.path.abspath(__file__)), 'rs2v_extra.py')
 if os.path.exists(EXTRA):
     exec(compile(open(EXTRA).read(), EXTRA, 'exec'))
